@@ -5,16 +5,29 @@ pub mod c06;
 pub mod c10;
 pub mod c11;
 pub mod c13;
+pub mod c14;
+pub mod c15;
 pub mod c16;
 pub mod c17;
 pub mod c18;
 pub mod c21;
 pub mod c22;
 pub mod c23;
+pub mod c24;
+pub mod c25;
 pub mod c26;
 pub mod c27;
+pub mod c28;
 pub mod c29;
+#[cfg(feature = "cli")]
+pub mod c30;
 
 pub fn all() -> Vec<Prop> {
-    vec![c05::PROP, c06::PROP, c10::PROP, c11::PROP, c13::PROP, c16::PROP, c17::PROP, c18::PROP, c21::PROP, c22::PROP, c23::PROP, c26::PROP, c27::PROP, c29::PROP]
+    vec![c05::PROP, c06::PROP, c10::PROP, c11::PROP, c13::PROP, c14::PROP, c15::PROP, c16::PROP, c17::PROP, c18::PROP, c21::PROP, c22::PROP, c23::PROP, c24::PROP, c25::PROP, c26::PROP, c27::PROP, c28::PROP, c29::PROP]
+}
+
+/// Properties served by the `vcheck-cli` binary (needs the `cli` feature).
+#[cfg(feature = "cli")]
+pub fn cli() -> Vec<Prop> {
+    vec![c30::PROP]
 }
